@@ -216,7 +216,7 @@ def fileptr_method(ex, st, loc, fp, name, args):
 
 
 def real_axioms():
-    from .lib_models import f32, r_log
+    from .lib_models import f32, r_log, r_pow, r_exp
     x = z3.Real("x!ra")
     y = z3.Real("y!ra")
     b = z3.Int("b!ra")
@@ -228,6 +228,8 @@ def real_axioms():
                                           patterns=[f32val(b)])),
         (("r_log",), z3.ForAll([x], z3.Implies(z3.And(x > 0, x < 1), r_log(x) < 0), patterns=[r_log(x)])),
         (("r_log",), r_log(z3.RealVal(1)) == 0),
+        (("r_pow",), z3.ForAll([x, y], z3.Implies(x > 0, r_pow(x, y) > 0), patterns=[r_pow(x, y)])),
+        (("r_exp",), z3.ForAll([x], r_exp(x) > 0, patterns=[r_exp(x)])),
         (("r_log",), z3.ForAll([x], z3.Implies(x > 1, r_log(x) > 0), patterns=[r_log(x)])),
         # float32 narrowing is monotone and fixes 0 and 1
         (("f32",), z3.ForAll([x], z3.And(z3.Implies(x <= 1, f32(x) <= 1), z3.Implies(x >= 1, f32(x) >= 1),
